@@ -138,6 +138,34 @@ def run_case(case):
         for pn in env:
             envq[pn] = np.concatenate([envq[pn], env[pn][bidx]], 0)
         ridx = np.concatenate([ridx, bidx])
+    # (c) structured points of polygonal leaves (no transforms in between): vertices shifted along the directions of the
+    #     OTHER edges (the far sides of the parallelogram spanned by two edges, edge extensions beyond a corner, ...)
+    leaves = []
+
+    def collect(n_):
+        if isinstance(n_, geo.Polygonal):
+            leaves.append(n_)
+        elif isinstance(n_, geo.Bool):
+            collect(n_.a)
+            collect(n_.b)
+    collect(node)
+    if leaves and dim == 2:
+        m = 60
+        sidx = rng.integers(0, kk, m)
+        envs = {pn: env[pn][sidx] for pn in env}
+        lf = leaves[int(rng.integers(0, len(leaves)))]
+        V = lf.verts(envs, m)
+        if V.shape[0] == 1:
+            V = np.repeat(V, m, 0)
+        nv = V.shape[1]
+        i_, j_, k_ = rng.integers(0, nv, m), rng.integers(0, nv, m), rng.integers(0, nv, m)
+        sc = np.where(rng.random(m) < 0.5, rng.random(m), 1 + rng.random(m))[:, None]
+        S = V[np.arange(m), i_] + sc * (V[np.arange(m), j_] - V[np.arange(m), k_])
+        X = np.concatenate([X, S], 0)
+        for pn in env:
+            envq[pn] = np.concatenate([envq[pn], envs[pn]], 0)
+        ridx = np.concatenate([ridx, sidx])
+        res["counters"]["structured_query_points"] = m
     N = len(X)
     # the library sees float32 coordinates: judge exactly those
     X = X.astype(np.float32).astype(np.float64)
